@@ -8,6 +8,7 @@ mod c04;
 mod c05;
 mod c06;
 mod c15;
+mod c17;
 mod walk;
 
 pub struct Opts {
@@ -48,6 +49,7 @@ fn main() {
         "c05" => c05::run(&o, deck),
         "c06" => c06::run(&o, deck),
         "c15" => c15::run(&o, deck),
+        "c17" => c17::run(&o, deck),
         "walk" => walk::run(&o, deck, "walk"),
         x => {
             eprintln!("unknown check {}", x);
